@@ -429,7 +429,9 @@ def step_(ctx, g, name, obj, ids, regime, nxt, hist, coords, sibs):
             if g.random() < 0.4:
                 pos = numpy.int64(pos)        # numpy integer scalar index
         else:
-            pos = numpy.sort(g.integers(0, n + 1, k)).astype("int64")
+            pos = g.integers(0, n + 1, k).astype("int64")
+            if g.random() < 0.5:
+                pos = numpy.sort(pos)        # ascending or in the caller's own order (numpy.insert semantics either way)
         new = LM.insert_ids(cur, pos, nw)
         raw = name != "DenseBreedingValueMatrix" and g.random() < 0.4
         form = "%s index, %d-entity block, %s operand" % ("scalar" if posform == "int" else "position-array", k, "raw" if raw else "matrix")
